@@ -859,7 +859,10 @@ class Scopes(Family):
 # ------------------------------------------------------------------ the shared parser remembers nothing but the parse
 
 PC_EXPRS = ['x+1', 'X+1', 'x + 1', '1+x', 'f(x)', 'F(x)', 'f(x)+sin(x)', 'sin(x)', '2k', '2K', '2*k', 'x+', '(x', 'x_{1}', "x'",
-            '[x,1]', '[x,1]*[x,1]', '1', '1.0', '1e3', '1E3', '', 'x^-1', 'sin(x', 'f(x)+f(x', 'x+1)']
+            '[x,1]', '[x,1]*[x,1]', '1', '1.0', '1e3', '1E3', '', 'x^-1', 'sin(x', 'f(x)+f(x', 'x+1)',
+            # bracket-balanced, names a variable, nested far beyond what the parser can handle: the call fails inside the
+            # parser with an error that is neither a parse error nor a library error
+            'q+(' * 200 + '1' + ')' * 200]
 
 
 def _pc_scope(which):
@@ -904,6 +907,8 @@ class ParserCache(Family):
             val, meta = X.evaluator(PC_EXPRS[i], V, F, S, max_array_dim=1)
             return ('ok', canon(val), tuple(sorted(meta.variables_used)), tuple(sorted(meta.functions_used)),
                     tuple(sorted(meta.suffixes_used)), meta.max_array_dim_used)
+        except RecursionError as e:
+            return ('err', type(e).__name__, '')         # the wording depends on where the interpreter gave up
         except Exception as e:
             return ('err', type(e).__name__, str(e))
 
